@@ -63,7 +63,7 @@ func (c08Engine) Count(tier string) int {
 	if tier == "thorough" {
 		return 40000
 	}
-	return 640
+	return 1200
 }
 func (c08Engine) Rule() string {
 	return "Scenario i from H(VERIF_SEED,'C08',i): 2-5 shared programs (built to hold every constant kind: regexps, folded int/string slices, membership lookup maps, constant ranges, call descriptors, typed integer constants), one shared read-only environment (struct/pointer/map) and sample environment, shared option values, a memory budget just above the largest measured sequential need (or the default), 2-6 tasks x 1-4 ops (expr.Run on a shared program | (*VM).Run on a task-private reused VM | expr.Compile with the shared options and a shared stateless patch visitor), and a scheduling policy (sequential control | uniform per yield | geometric bursts | PCT priorities with 1-3 change points). Tasks are real goroutines released one at a time at every VM instruction (verif hook), environment-function entry/exit and visited AST node; the binary is built with -race and the baton carries no happens-before edge. One evaluation = one scenario executed under its schedule. Non-trivial = at least one context switch fell strictly inside an op; distinct = distinct schedule signatures (hash of the (task, yield-point kind) sequence at context switches together with the program set)."
